@@ -44,6 +44,29 @@ theorem andNot_testBit (a b i : Nat) : (andNot a b).testBit i = (a.testBit i && 
 theorem shift_forgiveness (u : Uni) (k : Key) (key : Int) (m : Nat) :
     «matches» u k key m = true ↔ matchSpec u k key m := matches_iff u k key m
 
+/-- **shift_forgiven_only_documented.** When a binding matches although its modifier mask (locks aside)
+    differs from the event's, it is by exactly one of the three documented forgiveness rules — the mask
+    differs in Shift only, and: (3) the binding names the event's shifted code without Shift; or (5) the
+    binding key is a non-letter graphic character that is the event's key or shifted code; or (6) the
+    binding is Shift + a lower-case letter that HAS an upper case of its own (since the repair of F209) and
+    the event's text is that upper-case letter. -/
+theorem shift_forgiven_only_documented (u : Uni) (k : Key) (key : Int) (m : Nat)
+    (h : «matches» u k key m = true) (hne : stripLocks m ≠ stripLocks k.mods) :
+    unshift (stripLocks m) = unshift (stripLocks k.mods) ∧
+    ((k.shifted = key ∧ stripLocks m = unshift (stripLocks k.mods)) ∨
+     (u.isLetter key = false ∧ u.isGraphic key = true ∧ (k.keycode = key ∨ k.shifted = key)) ∨
+     (stripLocks m &&& shiftBit ≠ 0 ∧ u.isLower key = true ∧ u.toUpper key ≠ key ∧ k.text = strOfRune (u.toUpper key))) := by
+  have hs := (matches_iff u k key m).mp h
+  unfold matchSpec at hs
+  simp only at hs
+  rcases hs with ⟨_, hM⟩ | ⟨_, hM⟩ | ⟨h3, hM⟩ | ⟨_, hM⟩ | ⟨h5a, h5b, h5c, hM⟩ | ⟨h6a, h6b, h6c, h6d, hM⟩
+  · exact absurd hM hne
+  · exact absurd hM hne
+  · exact ⟨by rw [hM, unshift_idem], Or.inl ⟨h3, hM⟩⟩
+  · exact absurd hM hne
+  · exact ⟨hM, Or.inr (Or.inl ⟨h5a, h5b, h5c⟩)⟩
+  · exact ⟨hM, Or.inr (Or.inr ⟨h6a, h6b, h6c, h6d⟩)⟩
+
 /-- **match_strong_mods.** A binding matches only if Ctrl, Alt, Super, Hyper and Meta are identical
     in the event and in the binding. -/
 theorem match_strong_mods (u : Uni) (k : Key) (key : Int) (m : Nat)
